@@ -25,7 +25,7 @@ TAU = 1e-6
 
 
 def prebuild_targets(tier):
-    return HARNESS.targets(C.groups_for(tier)) + BRACKET.targets(C.groups_for(tier))
+    return HARNESS.targets(C.groups_for(tier, bundles=False)) + BRACKET.targets(C.groups_for(tier, bundles=False))
 
 
 def _eye(alg, n):
@@ -46,7 +46,7 @@ def _feasible_paths(rep, harness, g, scn, decl, seed, label):
 
 
 def run(rep, tier, seed):
-    groups = C.groups_for(tier)
+    groups = C.groups_for(tier, bundles=False)
     errs = HARNESS.build(groups)
     berrs = BRACKET.build(groups)
     rep.trust("REAL: machine arithmetic treated as mathematical",
@@ -55,6 +55,7 @@ def run(rep, tier, seed):
               "tracer vsym/sym.h; engine/alg.py (sympy rings/groebner); z3 for path feasibility")
     rep.assume("floating-point accuracy just above the small-angle switch-over is NOT decided (proofs are over the reals); "
                "e.g. SE2 rjacinv's generic-branch numerator cancels to 0 in double near theta=2e-7 although it is correct over the reals")
+    rep.assume("Bundles: every Bundle operation / Jacobian is the block-diagonal of its elements' (proved per layout under C11), so the element-group results proved here carry over")
     for g in groups:
         if g in errs:
             rep.fail("C06/%s/instantiates" % g, "BUILD", "g++", {"compiler_output": errs[g].output[-3000:]},
